@@ -1278,7 +1278,12 @@ class UPPDDLReader:
                 f"Could not parse the subtasks list: {e}, from line: {start_line}, col {start_col} to line: {end_line}, col {end_col}"
             )
 
-    def _check_if_object_type_is_needed(self, domain_res) -> bool:
+    def _check_if_object_type_is_needed(self, domain_res, problem_res=None) -> bool:
+        if problem_res is not None:
+            # an untyped (or explicitly object-typed) object of the problem
+            for g in problem_res.get("objects", []):
+                if len(g) <= 1 or g[1] == Object:
+                    return True
         for p in domain_res.get("predicates", []):
             for g in p[1]:
                 if len(g.value) <= 1 or g.value[1] == Object:
@@ -1390,7 +1395,9 @@ class UPPDDLReader:
             )
 
         types_map: TypesMap = {}
-        object_type_needed: bool = self._check_if_object_type_is_needed(domain_res)
+        object_type_needed: bool = self._check_if_object_type_is_needed(
+            domain_res, problem_res
+        )
 
         # extract all type declarations into a dictionary
         type_declarations: Dict[str, typing.Optional[str]] = {}
